@@ -23,10 +23,12 @@ INPUTS.append(("roots",
                "interface Being { id: ID! }\ninterface Named implements Being { id: ID! name: String }\ntype Person implements Being & Named { id: ID! name: String boss: Person kind: Kind }\nenum Kind { A B }\ninput Loop { next: Loop, k: Kind = A }\n",
                "query Me { me { id name boss { boss { id } } kind } }\nmutation Ren($n: String!) { rename(n: $n) { id } }\nsubscription Ticks($n: Int) { ticks(n: $n) }\nsubscription People { people { id name } }", {}, {}, True))
 INPUTS.append(("scalars_mixins",
-               "scalar Date\nscalar Blob\ntype Query { when(d: Date, b: Blob): Ev }\ntype Ev { at: Date! until: [Date] raw: Blob loc: Loc }\ntype Loc { lat: Float! lon: Float! }\ninput Win { from: Date!, to: Date }\ntype Mutation { book(w: Win!): Ev }",
+               "scalar Date\nscalar Blob\nscalar Stamp\nscalar Money\ntype Query { when(d: Date, b: Blob): Ev range(stamps: [Stamp!], grid: [[Money]]): Int }\ntype Ev { at: Date! until: [Date] raw: Blob loc: Loc }\ntype Loc { lat: Float! lon: Float! }\ninput Win { from: Date!, to: Date }\ntype Mutation { book(w: Win!): Ev }",
                "query When($d: Date, $b: Blob) { when(d: $d, b: $b) { at until raw loc @mixin(from: \".mixins\", import: \"MixA\") { lat lon } ...EvF } }\n"
-               "mutation Book($w: Win!) { book(w: $w) { at } }\nfragment EvF on Ev @mixin(from: \".mixins\", import: \"MixA\") { at }",
-               {"scalars": {"Date": {"type": "str", "parse": ".scal.parse_d", "serialize": ".scal.ser_d"}}, "files_to_include": ["mixins.py", "scal.py"]},
+               "mutation Book($w: Win!) { book(w: $w) { at } }\nfragment EvF on Ev @mixin(from: \".mixins\", import: \"MixA\") { at }\n"
+               "query Range($stamps: [Stamp!], $grid: [[Money]]) { range(stamps: $stamps, grid: $grid) }",
+               {"scalars": {"Date": {"type": "str", "parse": ".scal.parse_d", "serialize": ".scal.ser_d"}, "Stamp": {"type": "datetime.datetime"}, "Money": {"type": "decimal.Decimal", "serialize": ".scal.ser_d"}},
+                "files_to_include": ["mixins.py", "scal.py"]},
                {"mixins.py": MIXINS, "scal.py": SCAL}, False))
 INPUTS.append(("upload", "scalar Upload\ntype Query { ok: Boolean }\ntype Mutation { up(f: Upload!, fs: [Upload!], meta: Meta): Boolean }\ninput Meta { file: Upload, note: String }",
                "mutation Up($f: Upload!, $fs: [Upload!], $meta: Meta) { up(f: $f, fs: $fs, meta: $meta) }\nquery Ok { ok }", {}, {}, False))
